@@ -1,5 +1,6 @@
 import Ptk.Proto
 import Ptk.Model.C15
+import Ptk.Gen.PyChars
 import Std.Data.HashSet
 open Ptk Ptk.Py Ptk.Proto Ptk.C15
 
@@ -9,7 +10,9 @@ open Ptk Ptk.Py Ptk.Proto Ptk.C15
   init <cwt> <hasV> <vwt> <hasS> <maxN> <fixD1> <va> <vp> <vr> <sa> <sp> <sr> <slit>
        <text> <cur> <ncomp> (<back> <echo> <lit>)*
   ins s: | delb n | del n | cur v | text s: | next c dw | prev c dw | cancel | startc m | tab
-  apply s: start | vsync | reset s: c
+  apply s: start | vsync | reset s: c | hist
+  kill c|v|s     -- cancel the task waiting in the completer / validator / suggester
+  killp k        -- cancel the k-th pending task before its first step
   start k        -- first step of the k-th pending task (creation order)
   rel c|v|s      -- resume the (first) task waiting in the completer / validator / suggester
   drain          -- start pending tasks in creation order until none is pending
@@ -131,7 +134,7 @@ def parseInit : List String → Option DState
     let cur ← decNat cur
     let nc ← decNat nc
     let spec ← parseComps nc rest
-    let env : Env := ⟨mkComp spec, mkValid va vp vr, mkSugg sa sp sr slit⟩
+    let env : Env := ⟨mkComp spec, mkValid va vp vr, mkSugg sa sp sr slit, Gen.isSpace⟩
     pure ⟨cfg, env, init ⟨text, min cur text.length⟩⟩
   | _ => none
 
@@ -162,6 +165,19 @@ def applyOp (d : DState) : List String → Option (St × Bool)
       | some i => some (step d.cfg d.env d.s (.resume i))
       | none => some (d.s, false)
     | _ => none
+  | ["hist"] => some (step d.cfg d.env d.s .histComplete)
+  | ["kill", k] =>
+    match k.toList with
+    | [c] =>
+      match firstWaiting d.s.tasks c with
+      | some i => some (step d.cfg d.env d.s (.kill i))
+      | none => some (d.s, false)
+    | _ => none
+  | ["killp", k] => do
+    let k ← decNat k
+    match nthPending d.s.tasks k with
+    | some i => pure (step d.cfg d.env d.s (.kill i))
+    | none => pure (d.s, false)
   | ["drain"] => some (drain d.s (d.s.tasks.length + 8), false)
   | ["nrel", k] =>
     match k.toList with
@@ -244,5 +260,5 @@ def stepLine (d : DState) (toks : List String) : DState × String :=
 def main : IO Unit :=
   runS stepLine
     { cfg := ⟨false, false, false, false, 10000, true⟩,
-      env := ⟨fun _ => [], fun _ => none, fun _ => none⟩,
+      env := ⟨fun _ => [], fun _ => none, fun _ => none, Gen.isSpace⟩,
       s := init ⟨[], 0⟩ }
